@@ -50,7 +50,7 @@ func hasListInList(v any, inList bool) bool {
 
 func c02Opts() genOpts {
 	o := defaultOpts()
-	o.keys = []string{"a", "b", "c", "k1", "x-y", "z_9", "0", "12", "A"}
+	o.keys = []string{"a", "b", "c", "k1", "x-y", "z_9", "0", "12", "A", "cpu%"}
 	return o
 }
 
@@ -274,6 +274,28 @@ func c02Search(r *rand.Rand, doc map[string]any) Case {
 	sort.Strings(want)
 	if !reflect.DeepEqual(got, append([]string{}, want...)) && !(len(got) == 0 && len(want) == 0) {
 		fail = append(fail, "Search(f) != {p | f(Flatten[p])}")
+	}
+	// Search answers from the document as it is NOW: edit through nested builders (not through the
+	// root), then search again
+	if pn := guard(func() {
+		for j := 0; j < 3; j++ {
+			randomEdit(r, d)
+		}
+		fp2, _ := flatPlain(d)
+		var want2 []string
+		for k, x := range fp2 {
+			if fn(x) {
+				want2 = append(want2, k)
+			}
+		}
+		got2 := append([]string{}, d.Search(fn)...)
+		sort.Strings(got2)
+		sort.Strings(want2)
+		if !reflect.DeepEqual(got2, append([]string{}, want2...)) && !(len(got2) == 0 && len(want2) == 0) {
+			fail = append(fail, "after edits through nested builders, Search(f) != {p | f(Flatten[p])}")
+		}
+	}); pn != "" {
+		fail = append(fail, "panic in Search after edits: "+pn)
 	}
 	return Case{Kind: "search", Desc: map[string]any{"doc": doc, "pred": predDesc, "result": got},
 		Coq: "CSearch " + coqPred + " " + gNode(doc) + " " + gStrs(got), Fail: fail, Nontrivial: len(got) > 0 && hasListInList(doc, false)}
